@@ -20,6 +20,17 @@
 //   toksolve <chunk> <hash> <ep> <d> <max>            -> nonce=<n> | none
 //   hint <path>                                       -> some:<hex> | none
 //   storecli <cfg> <name> <content>                   -> rc=<n> err=<code|->   (real CLI `store` against a real in-process daemon)
+//
+// VERIF_INTERNALS (default 1): ops that call anonymous-namespace functions of the included .cpp files BY NAME
+// (announce_pow_digest/valid, compute_announce_pow, handshake_pow_digest/valid, compute_handshake_pow, the three
+// count_leading_zero_bits, StoreProof's pow_digest, main.cpp's transport_* helpers).  With -DVERIF_INTERNALS=0 the
+// harness uses the public API only (Node::verify_announce_pow / apply_announce_pow / perform_handshake /
+// generate_handshake_work, security::store_pow_valid / compute_store_pow / sanitize_filename_hint,
+// bootstrap::digest_meets_difficulty / solve_token_challenge, the CLI's main): internal-only ops answer `skip`,
+// unobservable fields are printed as `?` (the store preimage stays observable through the SHA-256 tap).
+#ifndef VERIF_INTERNALS
+#define VERIF_INTERNALS 1
+#endif
 #include "src/core/Node.cpp"
 #include "src/security/StoreProof.cpp"
 
@@ -195,18 +206,25 @@ int main(int argc, char** argv) {
         if (op == "lz" && t.size() == 3) {
             const auto dg = verif::from_hex(t[1]);
             const auto d = static_cast<std::uint8_t>(std::stoul(t[2]));
+            const ByteSpan span(dg.data(), dg.size());
+#if VERIF_INTERNALS
             std::string node = "-";
             if (dg.size() == 32) {
                 std::array<std::uint8_t, 32> a{};
                 std::copy(dg.begin(), dg.end(), a.begin());
                 node = std::to_string(ephemeralnet::count_leading_zero_bits(a));
             }
-            const ByteSpan span(dg.data(), dg.size());
-            return "node=" + node + " store=" + std::to_string(security::count_leading_zero_bits(span)) +
-                   " cli=" + std::to_string(powcli::clz(span)) +
-                   " meets=" + (bootstrap::digest_meets_difficulty(span, d) ? "1" : "0");
+            const std::string counters = "node=" + node + " store=" + std::to_string(security::count_leading_zero_bits(span)) +
+                                         " cli=" + std::to_string(powcli::clz(span));
+#else
+            const std::string counters = "node=? store=? cli=?";
+#endif
+            return counters + " meets=" + (bootstrap::digest_meets_difficulty(span, d) ? "1" : "0");
         }
         if (op == "ann" && t.size() == 9) {
+#if !VERIF_INTERNALS
+            return "skip";
+#else
             auto p = announce_of(t, 1);
             p.work_nonce = std::stoull(t[7]);
             const auto d = static_cast<std::uint8_t>(std::stoul(t[8]));
@@ -217,6 +235,7 @@ int main(int argc, char** argv) {
             tap::last_preimage = pre;
             tap::last_digest = dg;
             return pre_dg_valid(v);
+#endif
         }
         if (op == "annnode" && t.size() == 10) {
             Config c = quiet_config();
@@ -227,10 +246,14 @@ int main(int argc, char** argv) {
             return std::string("valid=") + (node.verify_announce_pow(p, static_cast<std::uint8_t>(std::stoul(t[2]))) ? "1" : "0");
         }
         if (op == "annsolve" && t.size() == 8) {
+#if !VERIF_INTERNALS
+            return "skip";
+#else
             auto p = announce_of(t, 1);
             p.work_nonce = 0xDEADBEEF;  // must be ignored by the solver's seed
             const bool ok = compute_announce_pow(p, static_cast<std::uint8_t>(std::stoul(t[7])));
             return ok ? "nonce=" + std::to_string(p.work_nonce) : std::string("none");
+#endif
         }
         if (op == "annsolvenode" && t.size() == 8) {
             Config c = quiet_config();
@@ -241,6 +264,9 @@ int main(int argc, char** argv) {
             return ok ? "nonce=" + std::to_string(p.work_nonce) : std::string("none");
         }
         if ((op == "hs" || op == "hscli") && t.size() == 6) {
+#if !VERIF_INTERNALS
+            return "skip";
+#else
             const auto a = id_of(t[1]);
             const auto b = id_of(t[2]);
             const auto pub = static_cast<std::uint32_t>(std::stoul(t[3]));
@@ -253,6 +279,7 @@ int main(int argc, char** argv) {
             tap::last_preimage = pre;
             tap::last_digest = dg;
             return pre_dg_valid(v);
+#endif
         }
         if (op == "hsnode" && t.size() == 6) {
             Config c = quiet_config();
@@ -266,14 +293,25 @@ int main(int argc, char** argv) {
             const auto b = id_of(t[2]);
             const auto pub = static_cast<std::uint32_t>(std::stoul(t[3]));
             const auto d = static_cast<std::uint8_t>(std::stoul(t[4]));
+#if VERIF_INTERNALS
             if (op == "hsclisolve") return nonce_out(powcli::solve(a, b, pub, d));
             std::uint64_t n = 0;
             return compute_handshake_pow(a, b, pub, d, n) ? "nonce=" + std::to_string(n) : std::string("none");
+#else
+            // public route: a node `a` configured with d bits whose public identity is `pub` solves work for `b`
+            if (op == "hsclisolve" || d > 24) return "skip";
+            Config c = quiet_config();
+            c.handshake_pow_difficulty = d;
+            Node node(a, c);
+            node.identity_public_ = pub;
+            return nonce_out(node.generate_handshake_work(b));
+#endif
         }
         if (op == "store" && t.size() == 6) {
             const std::string hint = str_of(t[3]);
             security::StoreWorkInput in{id_of(t[1]), std::stoull(t[2]), hint};
             const auto nonce = std::stoull(t[4]);
+#if VERIF_INTERNALS
             (void)security::pow_digest(in, nonce);
             const auto pre = tap::last_preimage;
             const auto dg = tap::last_digest;
@@ -281,6 +319,13 @@ int main(int argc, char** argv) {
             tap::last_preimage = pre;
             tap::last_digest = dg;
             return pre_dg_valid(v);
+#else
+            // the validator hashes the preimage itself (unless the difficulty is 0): the tap still sees it
+            const auto before = tap::finished;
+            const bool v = security::store_pow_valid(in, nonce, static_cast<std::uint8_t>(std::stoul(t[5])));
+            if (tap::finished == before + 1) return pre_dg_valid(v);
+            return std::string("pre=? dg=? valid=") + (v ? "1" : "0");
+#endif
         }
         if (op == "storesolve" && t.size() == 6) {
             const std::string hint = str_of(t[3]);
